@@ -96,13 +96,19 @@ class Collector:
         return r
 
 
-def search(strategy, run_case, n, seed, part, time_budget=None, shrink_budget=250, max_kinds=2, max_samples=6, shrink=True):
+def search(strategy, run_case, n, seed, part, time_budget=None, shrink_budget=250, max_kinds=2, max_samples=6, shrink=True, skip_zero=False):
+    """skip_zero: Hypothesis always starts with the all-simplest example; parts that run only a handful of
+    expensive cases (long chains) skip it so that every executed case has randomly drawn parameters."""
     col = Collector(part, max_samples=max_samples, time_budget=time_budget)
+    state = {"first": True}
 
     @hypothesis.seed(seed)
-    @_settings(n, [Phase.generate])
+    @_settings(n + (1 if skip_zero else 0), [Phase.generate])
     @given(strategy)
     def phase1(case):
+        if skip_zero and state["first"]:
+            state["first"] = False
+            return
         if col.out_of_time():
             col.skipped += 1
             return
